@@ -280,8 +280,8 @@ func buildSchema(c sCase) *jsonapi.Schema {
 		if len(c.State) > 0 {
 			first := ctn(c.State[0].Name)
 			if s.AddRel(first, jsonapi.Rel{FromType: first, FromName: "zq", ToOne: true, ToType: "zq-missing"}) == nil {
-				_ = s.Check()
-				_ = s.Rels()
+				quietly(func() { _ = s.Check() })
+				quietly(func() { _ = s.Rels() })
 				s.RemoveRel(first, "zq")
 			}
 		}
@@ -292,13 +292,23 @@ func buildSchema(c sCase) *jsonapi.Schema {
 		if c.Names == 1 || i%2 == 0 {
 			// the queries in between the edits: whatever they keep from one call to the next
 			// (an index, a memoised listing or verdict) has to follow every kind of edit
-			_ = s.Check()
-			_ = s.Rels()
+			quietly(func() { _ = s.Check() })
+			quietly(func() { _ = s.Rels() })
 			_ = s.HasType("zq")
 			_ = s.GetType("zq")
 		}
 	}
 	return s
+}
+
+// quietly runs a query of the set-up.  A panic there does not end the run: it is remembered, and the
+// Check event of the case reports it (a Check that panics on the way to a schema panics all the same).
+var setupPanicked bool
+
+func quietly(f func()) {
+	if p, _ := catch(f); p {
+		setupPanicked = true
+	}
 }
 
 func observeSchema(s *jsonapi.Schema, probes []string) sObs {
@@ -316,6 +326,7 @@ func observeSchema(s *jsonapi.Schema, probes []string) sObs {
 func runSchemaCase(c sCase, probes []string) sEvent {
 	nameStyle = c.Names
 	defer func() { nameStyle = 0 }()
+	setupPanicked = false
 	s := buildSchema(c)
 	ev := sEvent{Pre: projSchema(s), Op: c.Op}
 	if c.Kind == "check" {
@@ -324,7 +335,7 @@ func runSchemaCase(c sCase, probes []string) sEvent {
 		var errs []error
 		p, _ := catch(func() { errs = s.Check() })
 		ev.Ret = "ok"
-		if p {
+		if p || setupPanicked {
 			ev.Ret = "panic"
 		}
 		ev.Post = projSchema(s)
